@@ -27,6 +27,7 @@ func init() {
 			{ID: "C20.R12", Floor: 2, Run: typeArgPassedThrough, Text: "TypeID / ResourceTypeID hand the reflect.Type they were given to the registry unchanged (T and *T are different types)"},
 			{ID: "C20.R13", Floor: 1, Run: resetNoPreconditionPanics, Text: "Reset cannot fail on state (= C15.R10): resetting resources does not depend on which resources are present"},
 			{ID: "C20.R14", Floor: 1, Run: resourceTableSize, Text: "the resource table has exactly MaskTotalBits slots"},
+			{ID: "C20.R15", Floor: 3, Run: noWritesThroughResources, Text: "resource objects are only stored and handed out (= C19.R6): Get returns the exact pointer with its contents untouched"},
 		},
 	})
 }
